@@ -13,7 +13,7 @@ def gen(run):
         for rd in ("cursor", "strict"):
             yield P.case_dense(rd, P.DEFAULT_MAX, None, b"".join(lay)), "seed-layouts"
     yield from P.gap_lattice(rng)
-    yield from P.rewrite_cases(rng, 700 if quick else 12000, huge=0.0 if quick else 0.3)
+    yield from P.rewrite_cases(rng, 700 if quick else 12000)
     yield from P.tree_mutations(rng, 150 if quick else 4000)
     yield from P.config_lattice(rng)
 
@@ -28,22 +28,22 @@ _SHIFT = "each_trak kids (shift_table (shift_entry 32 d) (shift_entry 64 d))"
 THEOREMS = [
     ("C01_offsets_shifted", """
   forall (p : bytes) (kids : list node) (ts : list (N * list N)) (d : Z) (kids' : list node) (u : list unit),
-  moov_check p = Ok kids -> co_tables p = Some ts -> (- 2 ^ 31 < d < 2 ^ 31)%%Z ->
+  moov_check p = Ok kids -> co_tables p = Some ts -> (- 2 ^ 31 <= d < 2 ^ 31)%%Z ->
   %s = Ok (kids', u) ->
   exists ts', co_tables (put_nodes kids') = Some ts' /\\ shift_all d ts = Some ts' /\\ shifted_by d ts ts'""" % _SHIFT),
     ("C01_shape_preserved", """
   forall (p : bytes) (kids : list node) (d : Z) (kids' : list node) (u : list unit),
-  moov_check p = Ok kids -> (- 2 ^ 31 < d < 2 ^ 31)%%Z ->
+  moov_check p = Ok kids -> (- 2 ^ 31 <= d < 2 ^ 31)%%Z ->
   %s = Ok (kids', u) ->
   co_regions (put_nodes kids') = co_regions p /\\ co_regions p <> None /\\ blen (put_nodes kids') = blen p""" % _SHIFT),
     ("C01_overflow_rejected", """
   forall (p : bytes) (kids : list node) (ts : list (N * list N)) (d : Z),
-  moov_check p = Ok kids -> co_tables p = Some ts -> (- 2 ^ 31 < d < 2 ^ 31)%%Z ->
+  moov_check p = Ok kids -> co_tables p = Some ts -> (- 2 ^ 31 <= d < 2 ^ 31)%%Z ->
   (exists t e, In t ts /\\ In e (snd t) /\\ shift (fst t) d e = None) ->
   %s = EParse InvalidInput""" % _SHIFT),
     ("C01_rejected_only_on_overflow", """
   forall (p : bytes) (kids : list node) (ts : list (N * list N)) (d : Z),
-  moov_check p = Ok kids -> co_tables p = Some ts -> (- 2 ^ 31 < d < 2 ^ 31)%%Z ->
+  moov_check p = Ok kids -> co_tables p = Some ts -> (- 2 ^ 31 <= d < 2 ^ 31)%%Z ->
   is_ok (%s) = false ->
   exists t e, In t ts /\\ In e (snd t) /\\ shift (fst t) d e = None""" % _SHIFT),
     ("C01_tables_found", """
@@ -64,7 +64,7 @@ ASSUMPTIONS = fam.ASSUMPTIONS_COMMON + [
 RULE = ("seed layouts (unit-test shapes and neighbours) x {cursor, strict}; gap lattice: gap = media offset - metadata length in {-20,-5,-1,0,1..9,16,100} x "
         "entry width {4,8} x entry sets with field-boundary values {0, 2^31-1, 2^31, 2^32-1 | 2^63, 2^64-1, 2^32}, plus gaps 1..7 built with a later moov; "
         "structure-aware random rewrite layouts (1-4 tracks, stco/co64, 32/64-bit/until-end headers, unknown siblings at every level, sparse multi-GiB "
-        "fillers, 1-2 moov boxes); moov tree mutations; config lattices; thorough adds the 2^32-9 / 2^32-8 padding boundary and multi-GiB padding gaps. "
+        "fillers, 1-2 moov boxes); moov tree mutations; config lattices; thorough adds the 2^32-9 / 2^32-8 padding boundary. "
         "Oracle: extracted Spec.co_tables on the input's last moov payload and on the returned metadata, exact integer shift by "
         "delta = |metadata| - media offset; refusal required when the specification says an entry would leave its field. Non-trivial = at least 40 bytes "
         "present; distinct = distinct case line.")
